@@ -311,13 +311,34 @@ pub fn worker_main() {
 // only the watchdog itself — `HANG` — reports work unrelated to input size)
 pub const SLOW_MS: u128 = 1_000_000;
 
-/// one cache file per harness run (parent pid)
+/// the cache is keyed by this executable (name, size, modification time): call stacks are the
+/// same in every run of the same binary, so later runs pay nothing.  It is only a cache: when
+/// the file is missing the sites are symbolised again.
 fn site_cache_path() -> String {
-    format!("{}/c08-sites-{}.txt", std::env::temp_dir().display(), std::process::id())
+    let exe = std::env::current_exe().ok();
+    let (name, len, mtime) = exe
+        .as_ref()
+        .and_then(|p| {
+            let md = std::fs::metadata(p).ok()?;
+            let mt = md.modified().ok()?.duration_since(std::time::UNIX_EPOCH).ok()?.as_secs();
+            Some((p.file_name()?.to_string_lossy().to_string(), md.len(), mt))
+        })
+        .unwrap_or(("unknown".into(), 0, 0));
+    format!("{}/c08-sites-{}-{}-{}.txt", std::env::temp_dir().display(), name, len, mtime)
 }
 
 pub fn remove_site_cache() {
-    let _ = std::fs::remove_file(site_cache_path());
+    // kept on purpose (see site_cache_path); stale caches of older binaries are removed
+    let keep = site_cache_path();
+    let exe = std::env::current_exe().ok().and_then(|p| p.file_name().map(|n| n.to_string_lossy().to_string())).unwrap_or_default();
+    if let Ok(rd) = std::fs::read_dir(std::env::temp_dir()) {
+        for e in rd.flatten() {
+            let p = e.path().display().to_string();
+            if p.contains(&format!("c08-sites-{}-", exe)) && p != keep {
+                let _ = std::fs::remove_file(e.path());
+            }
+        }
+    }
 }
 
 pub struct Outcome {
